@@ -110,6 +110,9 @@ type holeUse struct {
 // holeClass classifies the provenance of a string hole.
 func holeClass(h *SHole) string {
 	p := h.Path
+	if h.Verb == "c" {
+		return "character"
+	}
 	switch {
 	case strings.HasSuffix(p, ".ActionCode"):
 		return "action"
@@ -135,6 +138,10 @@ func c16HoleContexts(c *Ctx, r *Report, sc *StagedConfig) {
 	quotedHole := map[int]bool{}
 	neutralised := map[int]bool{}
 	rd.sentinel = func(h *SHole) (string, bool) {
+		if h.Verb == "c" && isIntType(h.Typ) {
+			holes = append(holes, h)
+			return sentOpen + strconv.Itoa(len(holes)-1) + sentClose, true
+		}
 		if !isStringType(h.Typ) {
 			return "", false
 		}
@@ -190,7 +197,11 @@ func c16HoleContexts(c *Ctx, r *Report, sc *StagedConfig) {
 					}
 				}
 				if holes[id].Verb == "q" || quotedHole[id] {
-					ctxOf[id] = "quoted"
+					if ctxOf[id] == "format" {
+						ctxOf[id] = "quoted-format"
+					} else {
+						ctxOf[id] = "quoted"
+					}
 				}
 				detail[id] = strings.ReplaceAll(reSentinel.ReplaceAllString(lit, "‹hole›"), "\n", " ")
 			case token.COMMENT:
@@ -311,6 +322,8 @@ func holeVerdict(class, ctx string) (string, string) {
 			return "safe", "a symbol name or quoted single character cannot contain `*/`"
 		case "quoted":
 			return "safe", "emitted through %q: a valid Go string literal for every value"
+		case "quoted-format":
+			return "unsafe", "the symbol's display name is quoted with %q but the quoted literal is then used as a Printf FORMAT: the token '%' is taken for a verb, swallows an argument and the trace line prints %!…(MISSING) (go vet also fails)"
 		case "string":
 			return "unsafe", "a symbol's display name is pasted between double quotes unescaped: the character-literal token '\"' yields `\"'\"' \"`, which is not a valid Go string (the generated file does not compile)"
 		case "format":
@@ -322,6 +335,13 @@ func holeVerdict(class, ctx string) (string, string) {
 			return "safe", "inside a comment; names cannot contain `*/`"
 		case "code-declared-name":
 			return "unsafe", "a token name becomes a Go constant identifier verbatim: a token named like a Go keyword (type, func, range, …) or like an identifier of the generated parser (Parser, Context, StateSym, IsTrace, …) makes the file fail to compile"
+		}
+	case "character":
+		switch ctx {
+		case "char":
+			return "unsafe", "a token's code is pasted between single quotes as a character (%c): for the single-quote token (or a backslash or newline) the result is not a valid rune literal and the generated file does not compile"
+		case "comment":
+			return "safe", "inside a comment"
 		}
 	case "tag":
 		switch ctx {
